@@ -1,5 +1,6 @@
 import Amgcl.Proofs.SchedKernels
 import Amgcl.Proofs.SchedGersh
+import Amgcl.Proofs.SchedMicro
 /-!
 # C09 — results do not depend on the number of threads or their interleaving
 
@@ -22,6 +23,9 @@ Level-scheduled kernels (`gauss_seidel::parallel_sweep`, `ilu_solve::sptr_solve`
   serial triangular solve.  The Gauss–Seidel statement uses no algebraic law (any carrier with any `+ - * /`:
   bit-identical in IEEE arithmetic too); the ILU statement is bit-identical against the row-wise serial loop and
   equal in every commutative ring against `serial_solve` (which subtracts in place: different rounding).
+* `gs_any_load_store_interleaving_eq_serial`, `ilu_any_load_store_interleaving_eq_serial`   the same at the
+  granularity of single memory accesses (`Model/ScheduleMicro.lean`): every interleaving of the individual loads of
+  `x[c]` and stores of `x[i]` of the threads inside a level, levels separated by the barrier, yields the serial loop.
 * `*_thread_indep`   hence the dispatching kernels (serial fallback below 4 threads) do not depend on the thread count.
 * `no_barrier_counterexample`   the barrier is necessary: without it the skeleton admits a wrong execution.
 * `gershgorin_thread_indep`   the `omp critical` maximum of `spectral_radius` is the maximum over all rows.
@@ -273,6 +277,73 @@ theorem ilu_thread_indep (L U : CRS K) (D : Vec K)
   simp
 
 end ilu
+
+/-! ## load/store granularity -/
+section micro
+set_option linter.unusedSectionVars false
+variable {K : Type} [Add K] [Mul K] [Sub K] [Zero K] [One K] [Div K]
+
+/-- **Gauss–Seidel at the granularity of single memory accesses**: each row is a sequence of loads of `x[c]`
+(`c ≠ i`, stored order) and one store of `x[i]`; inside a level the scheduler interleaves the accesses of the `nt`
+threads arbitrarily, the barrier separates the levels.  Every such execution yields the serial sweep (repaired level
+loop, every pattern, every `nt ≥ 1`, any carrier). -/
+theorem gs_any_load_store_interleaving_eq_serial (fwd : Bool) (A : CRS K) (rhs : Vec K) (nt : Nat) (hnt : 1 ≤ nt)
+    (x x'' : Vec K) (hx : x.size = A.nrows)
+    (hrun : LevelwiseMicro (gsProg A rhs) (tasks (gsLevels fwd (pattern A)) nt)
+      (List.range (nlev (gsLevels fwd (pattern A)))) x x'') :
+    x'' = gsSerialSweep fwd A rhs x := by
+  have := micro_exec_eq_serial (gsProg A rhs) (gsRow A rhs) (fun i => (pattern A).getD i []) (gsProg_upd A rhs)
+    (fun i c hc => Or.inr (by
+      rw [pattern_getD]
+      exact (List.mem_filter.mp hc).1))
+    (gsRow_local A rhs) fwd _ (gsLevels_respects fwd (pattern A)) nt hnt gsExpectedSkeleton (by decide) x x''
+    (by rw [gsLevels_size, pattern_size]; exact hx) hrun
+  rw [gsLevels_size, pattern_size] at this
+  exact this
+
+/-- the ILU triangular solves at the granularity of single memory accesses (loads of `x[c]`, load of `x[i]`, store of
+`x[i]`): every execution yields the row-wise serial loop, bit for bit -/
+theorem ilu_any_load_store_interleaving_eq_rowwise (lower : Bool) (A : CRS K) (D : Vec K)
+    (hA : StrictTri lower (pattern A)) (nt : Nat) (hnt : 1 ≤ nt) (x x'' : Vec K) (hx : x.size = A.nrows)
+    (hrun : LevelwiseMicro (iluProg lower A D) (tasks (iluLevels lower (pattern A)) nt)
+      (List.range (nlev (iluLevels lower (pattern A)))) x x'') :
+    x'' = runRows (iluRow lower A D) (rowOrder lower A.nrows) x := by
+  have := micro_exec_eq_serial (iluProg lower A D) (iluRow lower A D) (fun i => (pattern A).getD i [])
+    (iluProg_upd lower A D)
+    (fun i c hc => by
+      rcases List.mem_append.mp hc with h | h
+      · exact Or.inr (by rw [pattern_getD]; exact h)
+      · exact Or.inl (by simpa using h))
+    (iluRow_local lower A D) lower _ (iluLevels_respects lower (pattern A) hA) nt hnt iluExpectedSkeleton (by decide)
+    x x'' (by rw [iluLevels_size, pattern_size]; exact hx) hrun
+  rw [iluLevels_size, pattern_size] at this
+  exact this
+
+end micro
+
+/-- … and in a commutative ring this is what `serial_solve` computes -/
+theorem ilu_any_load_store_interleaving_eq_serial {K : Type} [Field K] (lower : Bool) (A : CRS K) (D : Vec K)
+    (hA : StrictTri lower (pattern A)) (nt : Nat) (hnt : 1 ≤ nt) (x x'' : Vec K) (hx : x.size = A.nrows)
+    (hrun : LevelwiseMicro (iluProg lower A D) (tasks (iluLevels lower (pattern A)) nt)
+      (List.range (nlev (iluLevels lower (pattern A)))) x x'') :
+    x'' = iluSerialHalf lower A D x := by
+  rw [iluSerialHalf_eq_rowwise lower A D hA]
+  exact ilu_any_load_store_interleaving_eq_rowwise lower A D hA nt hnt x x'' hx hrun
+
+/-- non-vacuity: a load/store-granular execution exists in which thread 1 runs its whole row between the start
+and the store of thread 0 (pattern `[[0],[1]]`, one level, 4 threads) -/
+example : LevelwiseMicro (gsProg (⟨2, #[[(0, 1)], [(1, 1)]]⟩ : CRS Int) #[4, 3]) [[[0]], [[1]], [[]], [[]]] [0]
+    #[9, 9] #[4, 3] := by
+  refine LevelwiseMicro.cons (x' := #[4, 3]) (ths' := [⟨[], none⟩, ⟨[], none⟩, ⟨[], none⟩, ⟨[], none⟩]) ?_ ?_
+    (LevelwiseMicro.nil _)
+  · show MSteps (gsProg (⟨2, #[[(0, 1)], [(1, 1)]]⟩ : CRS Int) #[4, 3])
+      (#[9, 9], [⟨[0], none⟩, ⟨[1], none⟩, ⟨[], none⟩, ⟨[], none⟩]) (#[4, 3], _)
+    refine MSteps.step (MStep.start _ [] _ 0 []) ?_
+    refine MSteps.step (MStep.start _ [_] _ 1 []) ?_
+    refine MSteps.step (MStep.store _ [_] _ 1 [] []) ?_
+    refine MSteps.step (MStep.store _ [] _ 0 [] []) ?_
+    exact MSteps.refl _
+  · simp [MFinal]
 
 /-! ## reductions -/
 section gersh
